@@ -56,9 +56,11 @@ class Reader:
     def chars(self, n):
         raw = self.take(n)
         try:
-            return raw.decode("ascii")
+            # the format document says ASCII; UTF-8 is accepted as long as the stored length is the
+            # number of bytes, i.e. the container stays consistent (n is a byte count here)
+            return raw.decode("utf-8")
         except UnicodeDecodeError as e:
-            raise BadObject(f"non-ASCII character array at {self.p - n}: {raw[:40]!r}") from e
+            raise BadObject(f"undecodable character array at {self.p - n}: {raw[:40]!r}") from e
 
     def char_array(self):
         return self.chars(self.u32())
